@@ -77,6 +77,7 @@ func init() {
 		checkAddAtomic(p, r)
 		checkObjListWhole(p, r)
 		checkIndexRoot(p, r)
+		checkLogDeflated(p, r)
 		r.Engines = []string{"layout", "dtable", "wireseq", "pathsim", "bounds"}
 		r.Explanation = "Format constants and layouts are extracted from the resolved Go program (constant evaluation, struct sizes and field order, partial evaluation of headerSize/footerSize, SSA patterns for shifts, masks and widths, the struct types handed to encoding/binary, string literals) and compared entry by entry with a frozen table transcribed from the reftable format description; identities between struct sizes and size functions are checked; restart points obey the 16-bit cap and the prefix-length-zero rule; the wire sequence of every ref, log and index record value type written by the encoder equals the sequence the format prescribes, and the key codec uses 3 type bits. A change made symmetrically to writer and reader (which the round-trip tests cannot see) changes the extracted table and is reported."
 		r.NotDecided = []string{"that a particular emitted file parses (needs the arithmetic of C01)", "index and object-index contents", "zero padding lengths"}
@@ -100,7 +101,9 @@ func init() {
 		compareLayout(r, "LAYOUT-C-GO", "C vs Go", c, cmp, keys)
 		r.floor("LAYOUT-C-GO", len(keys), 20, "layout entries extracted from the C sources")
 		checkListParse(p, r)
-		r.Engines = []string{"layout"}
+		// the C reader inflates every log block: the Go side never writes (or accepts) a stored one
+		checkLogDeflated(p, r)
+		r.Engines = []string{"layout", "pathsim"}
 		r.Samples = append(r.Samples, map[string]interface{}{"c_layout": c})
 		r.Explanation = "The table of format constants and layouts extracted from the C sources (macros through clang -E -dM, header_size/footer_size switch arms, the put_be/get_be sequences of the header writer, footer writer and footer parser, and the literals of stack.c through clang's JSON AST and preprocessor; parsed only, never compiled or run) equals, entry by entry, the table extracted from the Go sources by constant evaluation, type structure and SSA patterns."
 		r.NotDecided = []string{"behavioural equivalence of the two code bases on any input", "record wire sequences of the C side", "trailing newline handling of tables.list (Go drops empty lines, C ends every name with a newline)"}
